@@ -362,6 +362,13 @@ pub fn abort_result(i: u64, case: &Value, desc: &str) -> Value {
 }
 
 pub fn hang_result(i: u64, case: &Value, note: &str) -> Value {
+    if note.contains(" of this line in this run]") {
+        // the instruction in flight had run to completion earlier in this same run: the run loops, and what one round
+        // costs depends on what the earlier rounds left behind (a directory copied into itself doubles per round).
+        // Like a run that exhausts the step budget in a loop, this says nothing about any single command
+        return json!({"i": i, "verdict": {"v": "inc", "reason": format!("no answer within the time limit in a run that loops; {}", note)},
+               "h": 0, "nt": false, "steps": 0, "digest": 0, "case": case, "log": []});
+    }
     json!({"i": i, "verdict": {"v": "fail", "class": "hang:native", "detail": format!("no answer within {} s of wall-clock ({} s when the process was not computing); {}", crate::worker::RUN_TIMEOUT_S, crate::worker::RUN_BLOCKED_S, note)},
            "h": 0, "nt": true, "steps": 0, "digest": 0, "case": case, "log": []})
 }
@@ -601,8 +608,15 @@ pub fn check(prop: &'static dyn Prop, opts: CheckOpts) -> i32 {
     for (i, desc) in &col.aborts {
         failures.push(abort_result(*i, &regenerate_case(prop, opts.seed, *i, &avoid), desc));
     }
+    let mut looping_hangs = 0u64;
     for (i, case, note) in &col.hangs {
-        failures.push(hang_result(*i, case, note));
+        let r = hang_result(*i, case, note);
+        if class_of(&r).is_some() {
+            failures.push(r);
+        } else {
+            looping_hangs += 1;
+            println!("note: run {} gave no answer within the time limit in a run that loops (inconclusive): {}", i, note);
+        }
     }
     failures.sort_by_key(|r| r["i"].as_u64().unwrap_or(0));
     let mut samples: Vec<Value> = col
@@ -721,7 +735,7 @@ pub fn check(prop: &'static dyn Prop, opts: CheckOpts) -> i32 {
             "exhaustive": false,
             "runs_per_hour": if wall > 0.0 { (evaluations as f64 / wall * 3600.0) as u64 } else { 0 },
             "simulated_steps": col.steps,
-            "inconclusive_runs": col.inconclusive,
+            "inconclusive_runs": col.inconclusive + looping_hangs,
             "faults_fired": col.fired,
             "reach_probes": col.probes,
             "reach_probes_at_zero": zero_probes,
@@ -746,7 +760,7 @@ pub fn check(prop: &'static dyn Prop, opts: CheckOpts) -> i32 {
     }
     println!(
         "{} {} seed={} runs={} distinct_nontrivial={} steps={} inconclusive={} violations={} known_hits={:?} wall={:.1}s",
-        prop.id(), opts.tier, opts.seed, evaluations, col.hashes.len(), col.steps, col.inconclusive, violations.len(), known_hits, wall
+        prop.id(), opts.tier, opts.seed, evaluations, col.hashes.len(), col.steps, col.inconclusive + looping_hangs, violations.len(), known_hits, wall
     );
     clean_own_jails(opts.workers);
     exit
